@@ -267,6 +267,36 @@ def assemble_fn(unit, spec, idx, raw, counts):
                 raise Undecided("%s needs R4" % spec["path"])
             edits.append((m_["start"], m_["end"], "/* R4: debug_assert dropped */"))
             counts["R4"] = counts.get("R4", 0) + 1
+        # R32: always-on run-time assertions are panics when false: they become calls of the prelude's
+        # `runtime_assert`, whose precondition is the asserted condition (an obligation, not an assumption)
+        if m_["name"] in ("assert", "assert_eq", "assert_ne"):
+            if "R32" not in unit.rules:
+                raise Undecided("%s needs R32 (%s!)" % (spec["path"], m_["name"]))
+            mtxt = raw[m_["start"] : m_["end"]].decode()
+            mm = re.match(r"(assert(?:_eq|_ne)?)!\s*\((.*)\)\s*;?\s*$", mtxt, re.S)
+            if not mm:
+                raise Undecided("R32: cannot read %r in %s" % (mtxt, spec["path"]))
+            args, depth, cur = [], 0, ""
+            for ch in mm.group(2):
+                if ch in "([{":
+                    depth += 1
+                elif ch in ")]}":
+                    depth -= 1
+                if ch == "," and depth == 0:
+                    args.append(cur.strip())
+                    cur = ""
+                else:
+                    cur += ch
+            if cur.strip():
+                args.append(cur.strip())
+            if mm.group(1) == "assert":
+                cond = "(%s)" % args[0]
+            elif len(args) >= 2:
+                cond = "(%s) %s (%s)" % (args[0], "==" if mm.group(1) == "assert_eq" else "!=", args[1])
+            else:
+                raise Undecided("R32: cannot read %r in %s" % (mtxt, spec["path"]))
+            edits.append((m_["start"], m_["end"], "runtime_assert(%s);" % cond))
+            counts["R32"] = counts.get("R32", 0) + 1
     text = apply_edits(raw, (f["start"], f["end"]), edits)
     # R1: accessors
     if "R1" in unit.rules:
@@ -301,6 +331,11 @@ def assemble_fn(unit, spec, idx, raw, counts):
         args = spec.get("probe_args", "")
         r2 = [re.sub(r"\bself\b", "s", re.sub(r"old\((\w+)\)", r"\1", c)) for c in req]
         probes.append((pname, "    proof fn %s(s: %s%s)\n        requires\n%s        ensures false,\n    {}\n" % (pname, unit.container.split()[-1], (", " + args) if args else "", "".join("            " + c + ",\n" for c in r2))))
+    if spec.get("no_termination"):
+        # partial correctness only for this function: stated per function in the unit file and reported as an assumption
+        text = "    #[verifier::exec_allows_no_decreases_clause]\n" + "    " + text.strip("\n") + "\n"
+        counts["termination_not_proved:" + spec["path"]] = 1
+        return f, text, probes
     return f, "    " + text.strip("\n") + "\n", probes
 
 
